@@ -794,7 +794,8 @@ def oracle(case: dict, obs: Obs) -> list:
                 stop_before = any(j < i for j in stops)
             never_started = good_start is None or good_start > i
             if stop_before:
-                bad.append(("join-blocks-after-stop", f"op {i} ({k}) waits for ever although stop() was issued before"))
+                why = "stop() was issued before" if k == "join" else f"{k} = stop() followed by join() must end the task"
+                bad.append(("join-blocks-after-stop", f"op {i} ({k}) waits for ever although {why}"))
             elif never_started:
                 pass                                            # documented: join() before start()/stop() never returns
             elif not obs.body_blocked:
